@@ -456,6 +456,9 @@ vfps::HDF5File::readPhaseSpace( std::string fname
 
     std::vector<hsize_t> ps_offset;
     std::vector<hsize_t> ps_ext;
+    if (ps_dims.empty() || ps_dims[0] == 0) {
+        throw HDF5FileException("File does not contain a phase space.");
+    }
     use_step = (ps_dims[0]+use_step)%ps_dims[0];
     meshindex_t ps_size;
     uint32_t nBunches = 1U;
